@@ -83,6 +83,32 @@ pub fn gen_name(rng: &mut Rng, pool: &[RName]) -> RName {
                     }
                 }
             }
+            4 => {
+                // wire-confusable: one label whose octets spell the wire form of
+                // (a suffix of) a pool name, so that octet-wise comparisons of
+                // wire forms see a label boundary where there is none
+                let n = rng.pick(pool).clone();
+                if !n.0.is_empty() {
+                    let skip = rng.below(n.0.len());
+                    let mut label: Vec<u8> = (0..rng.below(3)).map(|_| *rng.pick(b"aA\x01\x03x")).collect();
+                    for l in &n.0[skip..] {
+                        label.push(l.len() as u8);
+                        label.extend_from_slice(l);
+                    }
+                    if !label.is_empty() && label.len() <= 63 {
+                        let mut v: Vec<Vec<u8>> = (0..rng.below(3)).map(|_| gen_label(rng, 5)).collect();
+                        v.push(label);
+                        // sometimes keep the real suffix as well
+                        if rng.bool() {
+                            v.extend(n.0[skip..].iter().cloned());
+                        }
+                        let c = RName(v);
+                        if c.is_valid() {
+                            return c;
+                        }
+                    }
+                }
+            }
             _ => {}
         }
     }
